@@ -291,6 +291,11 @@ func (w *World) build(r M) (hwebsocket.Msg, error) {
 	case "SignedLatency":
 		t := T(hagallpb.MsgType_MSG_TYPE_SIGNED_LATENCY_REQUEST)
 		return wire(int32(t), &hagallpb.SignedLatencyRequest{Type: t, Timestamp: ts, RequestId: rid, IterationCount: uint32(geti(r, "n")), WalletAddress: gets(r, "wallet")}, ts), nil
+	case "Receipt":
+		t := T(hagallpb.MsgType_MSG_TYPE_RECEIPT_REQUEST)
+		hash, _ := hex.DecodeString(gets(r, "hash"))
+		sig, _ := hex.DecodeString(gets(r, "sig"))
+		return wire(int32(t), &hagallpb.ReceiptRequest{Type: t, Timestamp: ts, RequestId: rid, Receipt: gets(r, "receipt"), Hash: hash, Signature: sig}, ts), nil
 	case "Leave":
 		t := T(hagallpb.MsgType_MSG_TYPE_PARTICIPANT_LEAVE_REQUEST)
 		return wire(int32(t), &hagallpb.ParticipantLeaveRequest{Type: t, Timestamp: ts, RequestId: rid}, ts), nil
